@@ -186,6 +186,8 @@ func Enabled(w *World) []Op {
 			if id == 0 {
 				out = append(out, Op{Kind: "upd", ID: id, Vec: vecsOf[id][0], Meta: 2})
 			}
+			// an insert under a stored id is refused and must leave no trace (one representative: another vector, level 1)
+			out = append(out, Op{Kind: "ins", ID: id, Vec: vecsOf[id][1], Level: 1})
 		} else {
 			for _, v := range vecsOf[id] {
 				for lvl := 0; lvl <= 1; lvl++ {
